@@ -30,9 +30,15 @@ pub fn run(tier: Tier) -> i32 {
         for fill in [2047usize, 2048, 2049, 2100] {
             for others in [0usize, 1, 3] {
                 n += 1;
-                if let Some(v) = token_table_case(fill, others) {
+                if let Some(v) = token_table_case(fill, others, 0) {
                     rep.violation("token-table-full", v, J::obj().set("kind", J::s("token-table")).set("fill", J::i(fill as u64)).set("others", J::i(others as u64)));
                 }
+            }
+        }
+        for (fill, repeats) in [(0usize, 2047usize), (0, 2048), (0, 2100), (10, 4200), (2040, 300)] {
+            n += 1;
+            if let Some(v) = token_table_case(fill, 1, repeats) {
+                rep.violation("token-table-full", v, J::obj().set("kind", J::s("token-table")).set("fill", J::i(fill as u64)).set("others", J::i(1)).set("repeats", J::i(repeats as u64)));
             }
         }
         rep.add_sweep("token-table-full", n, n, 4, vec!["fill in {2047,2048,2049,2100} old tokens, then token T from address A, {0,1,3} other new tokens, T from address B".into()]);
@@ -40,7 +46,7 @@ pub fn run(tier: Tier) -> i32 {
     rep.finish()
 }
 
-pub fn token_table_case(fill: usize, others: usize) -> Option<crate::explore::Violation> {
+pub fn token_table_case(fill: usize, others: usize, repeats: usize) -> Option<crate::explore::Violation> {
     use crate::explore::Violation;
     use crate::nc::{self, client_addr, make_token, new_server, server_addr, TokenSpec, SR};
     use crate::props::hsworld::request_datagram;
@@ -96,13 +102,25 @@ pub fn token_table_case(fill: usize, others: usize) -> Option<crate::explore::Vi
             spo.expire = 600;
             nc::srv_process(&mut server, client_addr(5 + k as u16), &request_datagram(&make_token(&spo)))?;
         }
+        // a client that keeps retransmitting one and the same request (same token, same address)
+        if repeats > 0 {
+            let mut spr = TokenSpec::new(900, 190, public.clone());
+            spr.expire = 600;
+            let rq = request_datagram(&make_token(&spr));
+            for k in 0..repeats {
+                nc::srv_process(&mut server, client_addr(40), &rq)?;
+                if k % 256 == 255 {
+                    server.update(Duration::from_millis(10));
+                }
+            }
+        }
         let r2 = nc::srv_process(&mut server, b, &request_datagram(&t))?;
         if let SR::Send { bytes, .. } = &r2 {
             let mut d = bytes.clone();
             if let Some((_, Packet::Challenge { .. })) = nc::open(&mut d, nc::PROTOCOL, &t.server_to_client_key) {
                 return Err(Violation::new(
                     "C05/token-used-from-another-address-is-challenged",
-                    format!("token table filled with {} older tokens: T was used from {} one second ago, {} other tokens later it is challenged from {}", fill, a, others, b),
+                    format!("token table filled with {} older tokens: T was used from {} one second ago; {} other tokens and {} retransmissions of one request later it is challenged from {}", fill, a, others, repeats, b),
                 ));
             }
         }
@@ -115,8 +133,9 @@ pub fn replay(j: &J) -> i32 {
     if j.get("kind").and_then(|k| k.as_str()) == Some("token-table") {
         let fill = j.get("fill").and_then(|x| x.as_i()).unwrap_or(2048) as usize;
         let others = j.get("others").and_then(|x| x.as_i()).unwrap_or(1) as usize;
-        println!("token table case: {} fillers, {} other tokens", fill, others);
-        return match token_table_case(fill, others) {
+        let repeats = j.get("repeats").and_then(|x| x.as_i()).unwrap_or(0) as usize;
+        println!("token table case: {} fillers, {} other tokens, {} retransmissions of one request", fill, others, repeats);
+        return match token_table_case(fill, others, repeats) {
             Some(v) => {
                 println!("RESULT: violation {} — {}", v.signature, v.message);
                 1
